@@ -336,6 +336,8 @@ class MinimizerIMinuit(MinimizerBase):
         self.reset()
 
     def fix(self, parameter_name):
+        if parameter_name not in self._par_names:
+            raise ValueError("No parameter named '%s'!" % (parameter_name,))
         self._minimizer_param_dict["fix_" + parameter_name] = True
         if _IMINUIT_1:
             self._get_iminuit().fixed[parameter_name] = True
@@ -350,6 +352,8 @@ class MinimizerIMinuit(MinimizerBase):
             return self._get_iminuit().fixed[self.parameter_names.index(parameter_name)]
 
     def release(self, parameter_name):
+        if parameter_name not in self._par_names:
+            raise ValueError("No parameter named '%s'!" % (parameter_name,))
         self._minimizer_param_dict["fix_" + parameter_name] = False
         if _IMINUIT_1:
             self._get_iminuit().fixed[parameter_name] = False
@@ -359,6 +363,8 @@ class MinimizerIMinuit(MinimizerBase):
 
     def limit(self, parameter_name, parameter_bounds):
         assert len(parameter_bounds) == 2
+        if parameter_name not in self._par_names:
+            raise ValueError("No parameter named '%s'!" % (parameter_name,))
         self._minimizer_param_dict["limit_" + parameter_name] = (
             parameter_bounds[0],
             parameter_bounds[1],
@@ -366,6 +372,8 @@ class MinimizerIMinuit(MinimizerBase):
         self.reset()
 
     def unlimit(self, parameter_name):
+        if parameter_name not in self._par_names:
+            raise ValueError("No parameter named '%s'!" % (parameter_name,))
         self._minimizer_param_dict["limit_" + parameter_name] = None
         self.reset()
 
